@@ -434,8 +434,10 @@ package lua
 //@ extern runtime.Stack
 //@ noraise
 //@ modifies nothing
+//@ uninterp u_trim(s string, cutset string) string
 //@ extern strings.Trim
 //@ noraise
+//@ ensures  result == u_trim(s, cutset)
 //@ modifies nothing
 //@ trusted (*LState).stackTrace
 //@ assume stackTrace only reads the call stack
